@@ -541,6 +541,7 @@ func RunC04(c *Ctx, r *Report) {
 	r.Floors[prefix+"assert.type"] = 0
 	r.Floors[prefix+"nil.map"] = 1
 	r.Floors[prefix+"bounds.make"] = 8
+	c.wrapOfNilRule(r, prefix+"error.wrap-of-nil", scope, 10)
 	if len(scope) < 30 {
 		r.undecided(prefix+"anchor", "scope size", "-", fmt.Sprintf("only %d functions reached from the decode entry points (floor 30)", len(scope)))
 	} else {
@@ -561,7 +562,6 @@ func RunC04(c *Ctx, r *Report) {
 	r.Extra["loops_in_scope"] = e.loops
 	r.Extra["goarch"] = strings.TrimSpace(c.GOARCH + " ")
 }
-
 
 // edgeComparison: the comparison that holds on the edge p -> b of an If (the condition itself on the true
 // edge, its negation on the false edge), as a BinOp value that is not part of the program.
